@@ -31,7 +31,7 @@ class GuardCtx:
     def __init__(self, prog, fn, group_params=False, parm_objs=None):
         self.prog = prog
         self.fn = fn
-        self.flow = Flow(fn, prog, control=False)
+        self.flow = Flow(fn, prog, control=False, fields_env=False)
         self.group_params = group_params
         self.parm_objs = parm_objs      # optional: parameter name -> set of objects it stands for (set by the caller)
         self._atom_cache = {}
